@@ -19,7 +19,10 @@ extern "C" {
 void sched_log_allocs(int on);   // provided by the (uninstrumented) scheduler TU: records heap blocks allocated while the shared container is filled
 }
 
+// (re)creates the shared container, so that every schedule starts with a container that no clipper has used yet: a lazily
+// built cache inside the "read-only" container would be written by its first concurrent users
 void bodies_setup_shared() {
+  delete g_shared; g_shared = nullptr;
   sched_log_allocs(1);
   g_shared = new CL::ReuseableDataContainer64();
   g_shared->AddPaths(CL::Paths64{mk({10, 10, 60, 12, 55, 62, 8, 58}), mk({30, 30, 90, 35, 85, 80, 28, 85})}, CL::PathType::Subject, false);
@@ -28,9 +31,10 @@ void bodies_setup_shared() {
   sched_log_allocs(0);
 }
 
-int bodies_count() { return 7; }
+int bodies_count() { return 9; }
 const char* bodies_name(int b) {
-  static const char* n[] = {"B1 Clipper64+shared container (Intersection->paths)", "B2 Clipper64+shared container (Xor->tree)", "B3 ClipperD", "B4 ClipperOffset round/joined", "B5 RectClip+RectClipLines", "B6 MinkowskiSum", "B7 utilities"};
+  static const char* n[] = {"B1 Clipper64+shared container (Intersection->paths)", "B2 Clipper64+shared container (Xor->tree)", "B3 ClipperD", "B4 ClipperOffset round/joined", "B5 RectClip+RectClipLines", "B6 MinkowskiSum", "B7 utilities",
+                           "B8 ClipperOffset delta callback, round joins", "B9 Clipper64->PolyTree, island inscribed in its hole"};
   return n[b];
 }
 
@@ -47,5 +51,16 @@ void bodies_run(int body, int variant, std::string& out) {
     case 6: { CL::Path64 p; for (int i = 0; i < 24; ++i) p.emplace_back((int64_t)(i * 5 + d), (int64_t)((i % 7) * (i % 3) + (i % 2)));
       CL::Path64 a = CL::TrimCollinear(p, false), b = CL::SimplifyPath(p, 2.0, true), c = CL::RamerDouglasPeucker(p, 2.0), e = CL::Ellipse(CL::Point64(0, 0), 20.0 + d, 10.0, 0);
       CL::Paths64 all{a, b, c, e}; ser(out, all); auto pip = CL::PointInPolygon(CL::Point64((int64_t)(12 + d), (int64_t)3), p); out += std::to_string((int)pip); out += std::to_string(CL::Area(p)); break; }
+    case 7: { // per-vertex deltas through the callback API, round joins; the two variants use different arc tolerances and deltas
+      CL::ClipperOffset co(2.0, variant ? 0.4 : 0.1);
+      co.AddPaths(CL::Paths64{mk({0 + d, 0, 60 + d, 5, 50 + d, 50, 10 + d, 40}), mk({100 + d, 0, 140 + d, 0, 140 + d, 40, 100 + d, 40})}, CL::JoinType::Round, CL::EndType::Polygon);
+      double dl = variant ? 3.0 : 6.0;
+      CL::Paths64 s2; co.Execute([dl](const CL::Path64&, const CL::PathD&, size_t curr, size_t) { return dl + (double)(curr % 2); }, s2); ser(out, s2); break; }
+    case 8: { // a frame, a 12-gon hole and an island whose vertices all lie on the hole's outline (every third vertex): PolyTree owner
+      // resolution has to fall back to its "equivocal" path for the island
+      static const int64_t HX[12] = {40, 35, 20, 0, -20, -35, -40, -35, -20, 0, 20, 35}, HY[12] = {0, 20, 35, 40, 35, 20, 0, -20, -35, -40, -35, -20};
+      CL::Path64 hole, island; for (int i = 0; i < 12; ++i) { hole.emplace_back(HX[i] + 50 + d, HY[i] + 50); if (i % 3 == 0) island.emplace_back(HX[i] + 50 + d, HY[i] + 50); }
+      CL::Clipper64 c; c.AddSubject(CL::Paths64{mk({0 + d, 0, 100 + d, 0, 100 + d, 100, 0 + d, 100}), hole, island});
+      CL::PolyTree64 t; CL::Paths64 o; bool ok = c.Execute(CL::ClipType::Union, CL::FillRule::EvenOdd, t, o); out += ok ? "T" : "F"; serT(out, t); break; }
   }
 }
